@@ -1180,6 +1180,24 @@ class PolyTooLarge(Exception):
     pass
 
 
+_POLY_DEADLINE = [None]
+
+
+def set_poly_budget(seconds: Optional[float]):
+    """Wall-clock budget for the polynomial normalisers (they raise PolyTooLarge when it is exhausted)."""
+    import time as _t
+
+    _POLY_DEADLINE[0] = None if seconds is None else _t.time() + seconds
+
+
+def _poly_tick():
+    import time as _t
+
+    d = _POLY_DEADLINE[0]
+    if d is not None and _t.time() > d:
+        raise PolyTooLarge()
+
+
 def shared_nodes(t: T, min_size: int) -> set:
     """Arithmetic sub-terms of t with at least two parents and at least `min_size` nodes (candidates for abstraction)."""
     order = postorder([t])
@@ -1252,6 +1270,7 @@ def polynomial(t: T, limit: int = 60000, opaque: Optional[set] = None) -> Dict[t
             raise PolyTooLarge()
         r: Dict[tuple, Fraction] = {}
         for m1, c1 in a.items():
+            _poly_tick()
             for m2, c2 in b.items():
                 m = mmul(m1, m2)
                 c = c1 * c2
@@ -1339,6 +1358,7 @@ def rational_zero(t: T, limit: int = 40000, depth: int = 0) -> bool:
             raise PolyTooLarge()
         r: Dict[tuple, Fraction] = {}
         for m1, c1 in a.items():
+            _poly_tick()
             for m2, c2 in b.items():
                 m = mmul(m1, m2)
                 v = r.get(m, 0) + c1 * c2
